@@ -229,7 +229,7 @@ LEADS = [
     "\n\n",
     "t{u}: ",
     "\tt{u}:\t",
-    ".ascii \"ПРИВЕТ \"\t; é\n\t",
+    ".ascii \"ПРИВЕТ\"\t; é\n\t",
 ]
 
 
